@@ -502,6 +502,55 @@ def deletion_case(ctx, objs, k):
              sample={"case": cid, "held_at": hit, "command_waited_for_deletion": True} if k == 0 else None)
 
 
+def savebase_case(ctx, objs, k):
+    """WILD_SAVE_BASE: every link claims its own numbered bundle directory. Many links released at the same
+    instant with one base: afterwards there must be exactly one bundle per link, each complete."""
+    import subprocess
+    cid = f"savebase{k}"
+    sb = ctx.scratch.dir("sb", cid)
+    base = os.path.join(sb, "bundles")
+    os.makedirs(base)
+    n = 16
+    for j in range(n):
+        shutil.copy(objs[f"so{j % 3 + 1}"], os.path.join(sb, f"a{j}.o"))
+    rd, wr = os.pipe()
+    procs = []
+    env = dict(os.environ, WILD_SAVE_BASE=base)
+    for j in range(n):
+        # each child blocks reading the pipe until the parent closes the write end: all start together
+        procs.append(subprocess.Popen(["/bin/bash", "-c", f'read -r _x <&{rd}; exec {rd}<&-; exec "$0" "$@"', tools.wild(), f"a{j}.o",
+                                       "-shared", "-o", f"lib{j}.so"] + (["--no-fork"] if k % 2 else []), cwd=sb, env=env,
+                                      pass_fds=(rd,), stdout=subprocess.DEVNULL, stderr=subprocess.PIPE))
+    import time
+    time.sleep(0.3)
+    os.close(wr)
+    os.close(rd)
+    errs = []
+    for p in procs:
+        try:
+            _o, e = p.communicate(timeout=180)
+        except subprocess.TimeoutExpired:
+            p.kill()
+            return ctx.inconclusive("watchdog")
+        if p.returncode != 0:
+            errs.append(e.decode(errors="replace")[:200])
+    time.sleep(0.3)
+    bundles = sorted(os.listdir(base))
+    ctx.note(f"save-base:concurrent-links:{n}")
+    files = {"bundles.txt": "\n".join(f"{b}: {sorted(os.listdir(os.path.join(base, b)))[:8]}" for b in bundles), "errors.txt": "\n".join(errs) or "(none)"}
+    if errs:
+        ctx.violation("save-base:link-fails-under-concurrency", f"{len(errs)} of {n} simultaneous links with one WILD_SAVE_BASE failed: "
+                      f"{errs[0][:160]}", case=cid, files=files)
+        return
+    incomplete = [b for b in bundles if not os.path.exists(os.path.join(base, b, "run-with"))]
+    if len(bundles) != n or incomplete:
+        ctx.violation("save-base:bundle-directory-shared-by-links",
+                      f"{n} simultaneous links with one WILD_SAVE_BASE produced {len(bundles)} bundle directories "
+                      f"({len(incomplete)} without run-with): at least two links wrote into the same bundle", case=cid, files=files)
+        return
+    ctx.held(fingerprint=f"{cid}:{n}", nontrivial=True)
+
+
 def directory_case(ctx, objs, k):
     """The output path names an existing directory (with user files in it). Whatever the link's status, the
     directory and its contents must still be there, unmoved, and nothing else may appear in the sandbox."""
@@ -574,11 +623,11 @@ def main(ctx):
     n = ctx.pick(70, 900)
     nc = ctx.pick(10, 100)
     jobs = [("p", k) for k in range(len(PINNED))] + [("c", i) for i in range(n)] + [("x", i) for i in range(nc)]
-    jobs += [("d", k) for k in range(ctx.pick(5, 25))] + [("D", k) for k in range(5)]
+    jobs += [("d", k) for k in range(ctx.pick(5, 25))] + [("D", k) for k in range(5)] + [("S", k) for k in range(ctx.pick(6, 40))]
     if ctx.replay is not None:
         c = str(ctx.replay.get("case"))
         jobs = ([("p", int(c[6:]))] if c.startswith("pinned") else [("x", int(c[4:]))] if c.startswith("conc") else
-                [("d", int(c[3:]))] if c.startswith("del") else [("D", int(c[3:]))] if c.startswith("dir") else [("c", int(c))])
+                [("d", int(c[3:]))] if c.startswith("del") else [("D", int(c[3:]))] if c.startswith("dir") else [("S", int(c[8:]))] if c.startswith("savebase") else [("c", int(c))])
 
     def go(j):
         if j[0] == "p":
@@ -589,6 +638,8 @@ def main(ctx):
             deletion_case(ctx, objs, j[1])
         elif j[0] == "D":
             directory_case(ctx, objs, j[1])
+        elif j[0] == "S":
+            savebase_case(ctx, objs, j[1])
         else:
             one_case(ctx, objs, j[1])
     pmap(go, jobs)
